@@ -10,6 +10,7 @@ import TFV.Generated.Src.two_point_crossover
 import TFV.Generated.Src.uniform_crossover
 import TFV.Model.BinOps
 import TFV.Lemmas.Src.BinKernels
+import TFV.Properties.BinOps
 
 namespace TFV.SrcTie
 open TFV.Generated.Src
@@ -40,5 +41,26 @@ theorem C06_src_uniform_crossover (ps : List (List Int)) (fit rank : List Int) (
     (hlen : ch.length = (ps.headD []).length) (hch : ∀ c ∈ ch, c < ps.length) :
     uniform_crossover ps fit rank (ch.map Int.ofNat) = some (BinOps.uniformX ps ch) :=
   src_uniform_crossover ps fit rank ch hne hrows hlen hch
+
+/-! ### the C06 statements re-stated on the translated kernels -/
+
+/-- the translated `one_point_crossover` returns a prefix of one parent followed by the suffix of the
+    other (both orientations), reading both parents only in range -/
+theorem C06_src_one_point_prefix_suffix (a b : List Int) (fit rank : List Int) (cut : Nat) (srest : List Int)
+    (key u : Int) (urest : List Int) (hab : b.length = a.length) :
+    one_point_crossover [a, b] fit rank ((cut : Int) :: srest) key (u :: urest) =
+      some (if u < key then a.take (cut + 1) ++ b.drop (cut + 1) else b.take (cut + 1) ++ a.drop (cut + 1)) := by
+  rw [C06_src_one_point_crossover a b [] fit rank cut srest key u urest hab]
+  have h := BinOps.C06_onePoint a b cut hab.symm
+  by_cases hu : u < key
+  · simp [hu, h.1]
+  · simp [hu, h.2]
+
+/-- the translated `flip_mutation` keeps a binary string binary and of the same length -/
+theorem C06_src_flip_binary (x : List Int) (p : Int) (us : List Int) (hus : x.length ≤ us.length) (hb : BinOps.Binary x) :
+    ∃ y, flip_mutation x p us = some y ∧ BinOps.Binary y ∧ y.length = x.length := by
+  refine ⟨_, C06_src_flip_mutation x p us hus, ?_, ?_⟩
+  · exact (BinOps.C06_flip x _ hb).2.1
+  · exact (BinOps.C06_flip x _ hb).1
 
 end TFV.SrcTie
